@@ -10,8 +10,13 @@ AVOID3 = {'C01': 'StepAddress or Exp', 'C02': 'the rep/bkrep bookkeeping in Inte
          'C06': 'Timer::Skip or CoreTiming::Skip', 'C07': 'the latch sampling in Interpreter::Run or ICU::Trigger', 'C08': 'banke or ContextStore', 'C09': 'RestoreBlockRepeat or the block-end test in Interpreter::Run', 'C10': 'StepAddress or the epi/epj test in RnAndModify',
          'C11': 'MemoryInterfaceUnit::InMMIO or MemoryInterface::ProgramRead/ProgramWrite', 'C12': 'MemoryInterfaceUnit::ToMMIO or Cell::BitFieldCell', 'C13': 'Dma::Channel::Start or the counter0 limit in Dma::Channel::Tick', 'C14': 'Apbp::SetSemaphore or Apbp::ClearSemaphore',
          'C15': 'Timer::Skip or Timer::GetMaxSkip', 'C16': 'Btdmp::Skip or Btdmp::SetTransmitFlush', 'C17': 'Timer::Reset or Ahbm::Reset', 'C18': 'RestoreBlockRepeat or MemoryInterfaceUnit::ConvertDataAddress', 'C19': 'DataChannel::Recv or Apbp::SetSemaphore', 'C20': 'the arp pseudo-register slots or AccEProxy'}
+AVOID4 = {'C06': 'Timer::Skip, CoreTiming::Skip or the idle flag handling at interrupt entry', 'C07': 'the latch sampling in Interpreter::Run, ICU::Trigger or the st2 pseudo-register', 'C11': 'MemoryInterfaceUnit::InMMIO, MemoryInterface::ProgramRead/ProgramWrite or Teakra::DataWrite',
+          'C12': 'MemoryInterfaceUnit::ToMMIO, Cell::BitFieldCell or Dma::ActivateChannel', 'C13': 'Dma::Channel::Start, the counter0 limit or the destination alignment mask in Dma::Channel::Tick', 'C14': 'Apbp::SetSemaphore, Apbp::ClearSemaphore or DataChannel::Send',
+          'C15': 'Timer::Skip, Timer::GetMaxSkip or the pause test in Timer::Tick', 'C16': 'Btdmp::Skip, Btdmp::SetTransmitFlush or Btdmp::Send', 'C17': 'Timer::Reset, Ahbm::Reset or the SharedMemory constructor', 'C19': 'DataChannel::Recv, Apbp::SetSemaphore or ICU::Trigger',
+          'C01': 'StepAddress, Exp or max_gt', 'C02': 'the rep/bkrep bookkeeping in Interpreter::Run, GetDecoderTable or MatcherCreator', 'C03': 'AddSub, SatAndSetAccAndFlag or alm(Register)', 'C04': 'ShiftBus40, DoMultiplication or Exp', 'C05': 'Teakra_Disasm_Do, the mma_my_my renderer or GenerateParser',
+          'C08': 'banke, ContextStore or pop(Abe)', 'C09': 'RestoreBlockRepeat, the block-end test in Interpreter::Run or rep(Register)', 'C10': 'StepAddress, the epi/epj test in RnAndModify or the mma addressing', 'C18': 'RestoreBlockRepeat, ConvertDataAddress or Ahbm::Channel::GetBurstSize', 'C20': 'the arp slots, AccEProxy or the st2 slots'}
 rnd = sys.argv[1]
-AVOID = AVOID3 if rnd == '3' else AVOID2
+AVOID = AVOID4 if rnd == '4' else (AVOID3 if rnd == '3' else AVOID2)
 ids = sys.argv[2:]
 os.makedirs('/tmp/scratch', exist_ok=True)
 for l in open('/verif/properties.jsonl'):
